@@ -792,3 +792,14 @@ variant("enc-avc-flipped-compare", "C04", GRAPH, AVC, AVC.replace("ranks[j] < ra
 variant("enc-avc-count-gt0", "C04", GRAPH, "            solver.ensure(then(is_active[i], count_true(less_ranks + [is_root[i]]) >= 1))", "            solver.ensure(then(is_active[i], count_true([is_root[i]] + less_ranks) > 0))")
 variant("enc-avc-root-lt2", "C04", GRAPH, "    solver.ensure(count_true(is_root) <= 1)\n\n\n@overload\ndef active_vertices_connected(", "    solver.ensure(~(count_true(is_root) >= 2))\n\n\n@overload\ndef active_vertices_connected(")
 variant("enc-avc-bigger-ranks", "C04", GRAPH, "    ranks = solver.int_array(n, 0, n - 1)\n    is_root = solver.bool_array(n)\n\n    for i in range(n):\n        less_ranks = [((ranks[j]", "    is_root = solver.bool_array(n)\n    ranks = solver.int_array(n, 1, n + 3)\n\n    for i in range(n):\n        less_ranks = [((ranks[j]")
+
+# ---- C09 ---------------------------------------------------------------------------------------
+AEA = "            less_ranks.append((ranks[j] < ranks[i]) & is_active_edge[e])"
+# (ranks[j] <= ranks[i]) is equivalent here because adjacent ranks are forced distinct: triage finds no witness and reports undecided
+mutant("enc-aea-two-parents", "C09", GRAPH, "        solver.ensure(count_true(less_ranks) <= 1)\n\n\ndef _division_connected(", "        solver.ensure(count_true(less_ranks) <= 2)\n\n\ndef _division_connected(", "ENC-S")
+mutant("enc-aea-no-distinct", "C09", GRAPH, "            if i < j:\n                solver.ensure(ranks[i] != ranks[j])\n        solver.ensure(count_true(less_ranks) <= 1)", "        solver.ensure(count_true(less_ranks) <= 1)", "ENC-S")
+mutant("enc-aea-domain", "C09", GRAPH, "    n = graph.num_vertices\n\n    ranks = solver.int_array(n, 0, n - 1)\n\n    for i in range(n):\n        less_ranks = []", "    n = graph.num_vertices\n\n    ranks = solver.int_array(n, 0, (n - 1) // 2)\n\n    for i in range(n):\n        less_ranks = []", "ENC-S")
+mutant("enc-aea-ignores-edge", "C09", GRAPH, AEA, "            less_ranks.append((ranks[j] < ranks[i]) & is_active_edge[min(e, 0)])", "ENC-S")
+mutant("enc-aea-exactly-one", "C09", GRAPH, "        solver.ensure(count_true(less_ranks) <= 1)\n\n\ndef _division_connected(", "        solver.ensure(count_true(less_ranks) == 1)\n\n\ndef _division_connected(", "ENC-S")
+variant("enc-aea-flipped", "C09", GRAPH, AEA, "            less_ranks.append(is_active_edge[e] & (ranks[i] > ranks[j]))")
+variant("enc-aea-lt2", "C09", GRAPH, "        solver.ensure(count_true(less_ranks) <= 1)\n\n\ndef _division_connected(", "        solver.ensure(count_true(less_ranks) < 2)\n\n\ndef _division_connected(")
